@@ -83,7 +83,7 @@ theorem Good.ofObj (o : Obj) (ho : o.ok) (v : Int) (hr : int32InRange o.enc o.bl
   origin := encStep_origin o v
   rt := by
     intro s d hall _ horig hcur hdall hlen hagree
-    obtain ⟨hk, hbl⟩ := ho
+    obtain ⟨hk, hbl, _⟩ := ho
     obtain ⟨hr0, hr1, hinv⟩ := int32Raw_spec o.enc hk o.bl hbl v hr
     have hlt : (int32Raw o.enc o.bl v).toNat < 2 ^ o.bl := by
       have : ((2 ^ o.bl : Nat) : Int) = (2:Int) ^ o.bl := by simp
